@@ -454,6 +454,8 @@ def assemble(unit, twin=False):
     results = call_extract(req) if items else []
     ri = 0
     chunks = []  # (text, origin, is_fn, meta)
+    twin_n = [0]
+    twin_decls = []
     for s in unit.sections:
         if s.kind == "raw":
             chunks.append((s.text, s.origin, None))
@@ -477,11 +479,23 @@ def assemble(unit, twin=False):
                     audit_recipe_block(key.rstrip("?"), body, "%s:%s" % (unit.name, s.name))
                 blocks = dict(s.blocks)
                 if twin:
+                    # reachability twin: the function gets the extra postcondition `flag ==> false` with a flag of its own
+                    # (an uninterpreted constant).  Proving it needs the end of the body to be unreachable, so the twin run must
+                    # FAIL here; callers only learn `!flag_of_callee`, which says nothing about their own flag.
+                    twin_n[0] += 1
+                    flag = "vx_twin_flag_%d" % twin_n[0]
+                    twin_decls.append("pub uninterp spec fn %s() -> bool;" % flag)
                     sp = list(blocks.get("spec", []))
-                    if not any(re.match(r"\s*ensures\b", l) for l in sp):
-                        sp.append("    ensures")
-                    sp.append("        false, // @twin %s" % s.name)
-                    blocks["spec"] = sp
+                    cut = len(sp)
+                    for li, l in enumerate(sp):
+                        if re.match(r"\s*decreases\b", l):
+                            cut = li
+                            break
+                    head, tail = sp[:cut], sp[cut:]
+                    if not any(re.match(r"\s*ensures\b", l) for l in head):
+                        head.append("    ensures")
+                    head.append("        %s() ==> false, // @twin %s" % (flag, s.name))
+                    blocks["spec"] = head + tail
                 full_fn_text = r["text"] + "".join("\n" + lt for lt in (r.get("lifted") or []))
                 text = splice(full_fn_text, blocks, r, s, unit)
                 if s.opts.get("assume"):
@@ -498,6 +512,9 @@ def assemble(unit, twin=False):
                 a.functions.append(meta)
                 chunks.append((text, "%s:%d" % (r["file"], r["line_start"]), meta))
     body = []
+    if twin_decls:
+        body.append("// ---- reachability twin: one unconstrained flag per function under contract")
+        body.extend(twin_decls)
     for text, origin, meta in chunks:
         body.append("// ---- %s%s" % ("extracted " if meta else "", origin))
         body.append(text)
@@ -803,16 +820,18 @@ def verify_unit(name, seed=None, twin=False, retries=True):
         v.twin_ran = True
         try:
             asm2 = assemble(unit, twin=True)
-            p2 = os.path.join(WORK, name + ".twin.rs")
+            p2 = os.path.join(WORK, name + "_twin.rs")
             open(p2, "w").write(asm2.text)
             r2 = run_verus(p2, asm2, unit.flags, seed=seed)
+            if r2.tool_errors:
+                raise Undecided("the twin did not compile: %s" % r2.tool_errors[0][:300])
             hit = set()
             for f in r2.failures:
                 for t in f["tags"]:
                     if t.startswith("@twin:"):
                         hit.add(t[6:])
             for s in unit.sections:
-                if s.kind == "fn" and s.name not in hit and not s.opts.get("no_twin"):
+                if s.kind == "fn" and s.name not in hit and not s.opts.get("no_twin") and not s.opts.get("assume"):
                     v.twin_missing.append(s.name)
         except Undecided as e:
             v.twin_missing.append("twin assembly failed: %s" % e)
@@ -908,6 +927,9 @@ def check_property(pid, tier="quick", seed=0):
                 solver_ms["%s::%s" % (v.unit, fb["function"])] = {"ms": fb["ms"], "rlimit": fb["rlimit"], "success": fb["success"]}
         if v.twin_ran:
             twin[v.unit] = {"functions_without_reachable_end": v.twin_missing}
+            if v.twin_missing:
+                # a function whose end cannot be reached under its own contract proves anything: nothing it "discharged" counts
+                undecided.append("vacuity guard: in unit %s the end of %s is unreachable under the stated contract (contradictory requires / assumed false)" % (v.unit, ", ".join(v.twin_missing[:6])))
         # masking: after a failed assertion the verifier ASSUMES it, so a failing clause that does not belong to this property
         # (a neutral shape/model clause or another property's) hides every later clause of the same function; the property's
         # clauses in such a function are not counted as discharged and the unit is undecided for this property
